@@ -1019,6 +1019,9 @@ fn near_lit(vals: &[Lit], r: &mut Rnd) -> Lit {
             (0, Lit::Str(s)) => Lit::Str(format!("{s}a")),
             (1, Lit::Str(s)) if s.len() > 1 && s.is_char_boundary(1) => Lit::Str(s[..1].to_string()),
             (0, Lit::Bool(b)) => Lit::Bool(!b),
+            // the other zeros: equal in value to the document's, different in sign or type
+            (2 | 3, Lit::Num(n)) if n.is_zero() => Lit::Num([N::F(0.0), N::F(-0.0), N::U(0)][r.below(3)]),
+            (2, Lit::Num(N::F(x))) => Lit::Num(N::F(-x)),
             (_, v) => v,
         };
     }
